@@ -1,4 +1,3 @@
 SPECIFICATION TSpec
-INVARIANTS CursorInside RoundTrip LastAgrees
 POSTCONDITION Post
 CHECK_DEADLOCK FALSE
